@@ -70,6 +70,9 @@ def run(R, tier, rng):
                 add("dc_item " + show(ids) + " " + str(i) + tag, guarded(lambda i=i: fields_of(kinds, mk()[i])), "item", nt, f"obj[{i}]")
             # iteration: entry i consists of the i-th element of every field
             add("dc_iter " + show(ids) + tag, guarded(lambda: [fields_of(kinds, e) for e in mk()]), "iter", nt, "list(iter(obj))")
+            # the entries kept in a list first and read afterwards (every entry is its own object), and read in reverse order
+            add("dc_iter " + show(ids) + tag + " retained", guarded(lambda: [fields_of(kinds, e) for e in list(mk())]), "iter/retained", nt, "entries = list(obj); then every entry is read")
+            add("dc_iter " + show(ids) + tag + " retained-reversed", guarded(lambda: [fields_of(kinds, e) for e in list(mk())[::-1]][::-1]), "iter/retained", nt, "entries = list(obj); read from the last to the first")
             # concatenation
             for parts in ([n], [n, 0], [1, n], [n, 2, 1]):
                 objs_ids = []
@@ -89,6 +92,22 @@ def run(R, tier, rng):
                 expect = int(ids2 == ids)
                 def eq(ids2=ids2): return int(bool(mk() == C(*[real(k, col) for k, col in zip(kinds, ids2)])))
                 add("dc_eq " + show(ids) + " " + show(ids2) + tag, guarded(eq), "eq", nt, f"obj == obj' ({variant})")
+            # equality of a 2-D field with a field of another WIDTH (one column / repeated columns broadcast to equal cells) or with a 1-D field: never equal
+            if "m" in kinds and n:
+                jm = kinds.index("m")
+                for wname, widen in (("one-column", lambda col: np.array([[x] for x in col], dtype=int)), ("six-columns", lambda col: np.array([[x, -x, 7, x, -x, 7] for x in col], dtype=int)),
+                                     ("1-D", lambda col: np.array(col, dtype=int))):
+                    def eqw(widen=widen):
+                        a = mk(); cols = [real(k, col) for k, col in zip(kinds, ids)]
+                        cols[jm] = widen(ids[jm])
+                        return int(bool(a == C(*cols)))      # (an exception is a deviation: the comparison of two tables is never refused)
+                    add("dc_eq " + show(ids) + " " + show([c + [1] for c in ids]) + tag + " width:" + wname, guarded(eqw), "eq/other-width", nt, f"obj == obj' whose 2-D field has another width ({wname})")
+            # a 1-D field against the same values with a trailing axis of length 1 (equal cell by cell after broadcasting when n == 1): not the same table
+            if n:
+                def eqax():
+                    cols = [real(k, col) for k, col in zip(kinds, ids)]; cols[0] = cols[0][..., None]
+                    return int(bool(mk() == C(*cols)))
+                add("dc_eq " + show(ids) + " " + show([c + [1] for c in ids]) + tag + " trailing-axis", guarded(eqax), "eq/other-shape", nt, "obj == obj' whose first field has shape (n, ..., 1)")
             # astype to a narrower class (field names preserved)
             if nf >= 2:
                 for keep in ([0], [nf - 1], list(range(nf - 1)), list(range(nf))[::-1], [nf - 1, 0]):
